@@ -97,14 +97,25 @@ def component_twins(ctx: Ctx):
             if rng.random() < 0.15:     # negative ranges whose bounds are in the ratio of the interval capacity (lb = 4 ub): expressions like
                 doms.append((-4.0 * w, -1.0 * w)); continue      # ub - lb / 4 vanish exactly there while (ub - lb) / 4 does not
             doms.append((off, off + w))
+        ragged = i in (4, 5)
+        if ragged:
+            # stratified: an index whose inputs have different numbers of nodes (5 and 3), the coarser input living at an offset of 1e6 widths:
+            # whatever pads the shorter node row may not enter that input's length scale
+            nx, kpl, levels = 2, 2, [2, 1]
+            w = 10.0 ** rng.choice([-3, 0, 2])
+            doms = [(0.0, 1.0), (-1e6 * w, -1e6 * w + w)] if i == 4 else [(2.0, 4.0), (1e6 * w, 1e6 * w + w)]
         unit = [(0.0, 1.0)] * nx
         mx = tuple(levels)
         order = p_exact.random_order(rng, mx, rng.randint(2, 7))
+        if ragged:
+            order = [(0, 0), (1, 0), (0, 1), (1, 1), (2, 0), (2, 1)]
         S = set(order)
         case = {'nx': nx, 'ny': ny, 'kpl': kpl, 'levels': levels, 'domains': doms, 'order': order}
         c1, t1 = p_exact.build_poly_component(rng, nx, 0, ny, levels, kpl, unit, name='orig')
         # a third of the twins normalise their inputs with minmax (the normalisation must not introduce an absolute length scale either)
         tw_norms = {f'x{k}': 'minmax' for k in range(nx)} if rng.random() < 0.33 else None
+        if ragged:
+            tw_norms = None
         if i < 4:       # stratified: the narrowest width of the property's range (1e-9) is always covered, under minmax (i < 2) and un-normalised
             tw_norms = {f'x{k}': 'minmax' for k in range(nx)} if i < 2 else None
             doms[0] = (rng.choice([0.0, 1.0]), 0.0); doms[0] = (doms[0][0], doms[0][0] + 1e-9)
@@ -125,7 +136,7 @@ def component_twins(ctx: Ctx):
         # an absolute floor on that tolerance would swallow them on the narrowest domains)
         for _ in range(2):
             u_ = [rng.random() for _ in range(nx)]
-            k0 = 0 if i < 4 else rng.randrange(nx)
+            k0 = 0 if i < 4 else (1 if ragged else rng.randrange(nx))
             g_ = [float(c2.inputs[f'x{k0}'].denormalize(np.array([t_]))[0]) for t_ in c2.training_data.x_grids[f'x{k0}']]
             node_u = (rng.choice(g_) - doms[k0][0]) / (doms[k0][1] - doms[k0][0])
             u_[k0] = node_u + rng.choice([-1, 1]) * 2.0 ** -12
